@@ -64,6 +64,17 @@ HISTORIES = {
                    ("change", "m.oal", [(R(2, 19, 2, 19), "\nlet other = nope;\n")])],
         "probe": ("main.oal", {"line": 1, "character": 18}),
     },
+    "close-the-buffer-that-broke-the-program": {
+        "disk": {"main.oal": 'use "m.oal" as m;\nres / on get -> <m.t>;\n', "m.oal": "let t = {};\n"},
+        "script": [("open", "main.oal", 'use "m.oal" as m;\nres / on get -> <m.t>;\n'), ("sync", "main.oal"),
+                   ("change", "main.oal", [(R(1, 19, 1, 20), "nope")]), ("sync", "main.oal"), ("close", "main.oal")],
+        "probe": ("main.oal", {"line": 1, "character": 19}),
+    },
+    "close-an-import-whose-buffer-had-a-syntax-error": {
+        "disk": {"main.oal": 'use "m.oal";\nres / on get -> <t>;\n', "m.oal": "let t = {};\n"},
+        "script": [("open", "main.oal", 'use "m.oal";\nres / on get -> <t>;\n'), ("open", "m.oal", "let t = {;\n"), ("sync", "main.oal"), ("close", "m.oal")],
+        "probe": ("main.oal", {"line": 1, "character": 18}),
+    },
     "module-error-close-and-reopen": {
         "disk": {"main.oal": 'use "m.oal";\nres / on get -> <t>;\n', "m.oal": "let t = {};\n"},
         "script": [("open", "main.oal", 'use "m.oal";\nres / on get -> <t>;\n'), ("open", "m.oal", "let t = {;\n"), ("sync", "main.oal"),
